@@ -254,6 +254,12 @@ def cli_args(root, st, aux):
         return "flatten", [r, st["dest_path"]]
     if op == "info":
         return "info", [r]
+    if op == "hash":
+        return "hash", [os.path.join(root, st["file"]), "-h", st.get("fmt", "md5")]
+    if op == "xsdcheck":
+        hr = os.path.join(root, st.get("hist", "") or "")
+        gens = impl.list_manifests(hr)
+        return "xsd_schema_check", ([os.path.join(hr, "ascmhl", gens[-1][1])] if gens else [os.path.join(hr, "nothing.mhl")]) + ["-xsd", os.path.join(core.REPO, "xsd", "ASCMHL.xsd")]
     if op == "infosf":
         a = ["-sf", os.path.join(root, st["file"])]
         if st.get("root") is not None:
@@ -262,11 +268,32 @@ def cli_args(root, st, aux):
     raise ValueError(op)
 
 
-COMMANDS = {"create", "verify", "verifydh", "verifypl", "diff", "flatten", "info", "infosf"}
+COMMANDS = {"create", "verify", "verifydh", "verifypl", "diff", "flatten", "info", "infosf", "hash", "xsdcheck"}
 
 
 def manifest_listing(root):
     return {h: set(f for _, f in impl.list_manifests(h)) for h in histories_below(root)}
+
+
+def hist_state(root):
+    """{history (relative): {'files': {manifest name: c4 of its bytes}, 'chain': [(sequencenr, file name, c4)] | None | 'unparsable'}}"""
+    out = {}
+    for h in histories_below(root):
+        d = os.path.join(h, "ascmhl")
+        files = {}
+        for f in sorted(os.listdir(d)):
+            if f.endswith(".mhl"):
+                with open(os.path.join(d, f), "rb") as fh:
+                    files[f] = impl.digest_text("c4", fh.read())
+        cp = os.path.join(d, "ascmhl_chain.xml")
+        chain = None
+        if os.path.exists(cp):
+            try:
+                chain = [list(x) for x in impl.read_chain(cp)]
+            except Exception:  # noqa
+                chain = "unparsable"
+        out[rel(root, h)] = {"files": files, "chain": chain, "other": sorted(f for f in os.listdir(d) if not f.endswith(".mhl") and f != "ascmhl_chain.xml")}
+    return out
 
 
 def run_impl(scn, scratch, keep=False, snap=False):
@@ -293,7 +320,11 @@ def run_impl(scn, scratch, keep=False, snap=False):
         before = manifest_listing(root)
         cmd, argv = cli_args(root, st, aux)
         snap0 = (impl.snapshot(root), impl.snapshot(aux)) if snap else None
+        hs0 = hist_state(root) if snap else None
+        if snap:
+            impl.audit_start(base)
         outcome, out = impl.run_cli(cmd, argv)
+        audit = impl.audit_stop() if snap else None
         after = manifest_listing(root)
         fs_changed = None
         if snap:
@@ -313,6 +344,9 @@ def run_impl(scn, scratch, keep=False, snap=False):
         o = {"op": st["op"], "outcome": list(outcome), "written": written, "missing": missing, "mismatch": mismatch, "new": new, "output": out, "_raw": raw, "_argv": argv}
         if snap:
             o["_fs_changed"], o["_aux_changed"] = fs_changed, aux_changed
+            o["_hist_before"], o["_hist_after"] = hs0, hist_state(root)
+            o["_audit"] = audit
+            o["_root_name"] = os.path.basename(root)
         if st["op"] in ("info", "infosf"):
             o["info"] = parse_info(out, os.path.join(root, st.get("root") or "") if st["op"] == "info" or st.get("root") is not None else _nearest(root, st["file"]))
         if st["op"] == "verifydh":
